@@ -52,7 +52,7 @@ ASSUMPTIONS = [
 SHRINK_FIELDS = ["faults"]
 
 ERR_KINDS = ["EIO", "ENOSPC", "EACCES", "EBUSY", "EPERM"]
-CALLERS = ["bytes", "text", "json", "snapshot", "lines", "rewrite", "replace", "sidecar"]
+CALLERS = ["bytes", "text", "json", "snapshot", "lines", "rewrite", "replace", "sidecar", "export"]
 _MISTAKABLE = re.compile(r"(\.json|\.jsonl|\.meta|\.jsonl\.\d+|\.json\.zst)$")
 
 
@@ -108,7 +108,7 @@ def _setup(prog: Dict[str, Any], root: str) -> Dict[str, Any]:
     """Return {'dests': [rel...], 'old': {rel: bytes|None}, 'call': fn, 'primary': rel}."""
     caller = prog["caller"]
     cs = int(prog["cseed"])
-    textual = caller in ("text", "json", "rewrite", "snapshot", "lines", "sidecar")
+    textual = caller in ("text", "json", "rewrite", "snapshot", "lines", "sidecar", "export")
     old = _content(prog["old"], cs, textual)
     new = _content(prog["new"], cs + 1, textual) or b""
     snap = os.path.join(root, "snap")
@@ -127,6 +127,12 @@ def _setup(prog: Dict[str, Any], root: str) -> Dict[str, Any]:
         dests = ["snap/export.json"]
         obj = {"k%d" % i: [r.randint(0, 9), new.decode("utf-8")[: r.randint(0, 50)]] for i in range(r.randint(0, 5))}
         call = lambda: atomic.atomic_write_json(os.path.join(root, dests[0]), obj)  # noqa: E731
+    elif caller == "export":
+        # the JSON exporter the operator tools use (console.write_json; export_logs_for_frontend writes its bundle the same way)
+        import clematis.scripts.console as console
+        dests = ["snap/export.json"]
+        obj2 = {"k%d" % i: [r.randint(0, 9), new.decode("utf-8")[: r.randint(0, 50)]] for i in range(r.randint(1, 6))}
+        call = lambda: console.write_json(os.path.join(root, dests[0]), obj2)  # noqa: E731
     elif caller == "snapshot":
         dests = ["snap/state_%s.json" % prog["agent"], "snap/state_%s.json.meta" % prog["agent"]]
         w = {("node", "n%d" % i, "weight"): r.uniform(-1, 1) for i in range(r.randint(0, 6))}
